@@ -10,6 +10,7 @@ import (
 
 func init() {
 	vs.RegisterHarness("VerifC11PriceToTickBands", VerifC11PriceToTickBands)
+	vs.RegisterHarness("VerifC11PriceToTickSamples", VerifC11PriceToTickSamples)
 }
 
 // c11BoundaryTicks: ticks around which a band of prices is placed (extremes of the uint64 price range, the unit
@@ -99,4 +100,27 @@ func VerifC11TickIsExact(price uint64, offsetTick uint64) bool {
 	}
 	hi, err := tickToPriceX96(t + 1)
 	return err == nil && hi.Cmp(target) > 0
+}
+
+// VerifC11PriceToTickSamples: CONCRETE sweep (no symbolic input; the engine just evaluates the real code): for every
+// boundary tick t of c11BoundaryTicks and the prices TickToPrice(t)-1, TickToPrice(t), TickToPrice(t)+1 (the places
+// where an off-by-one in the final tick selection shows), PriceToTick succeeds and returns the largest tick whose
+// X96 price does not exceed the price. This is sampling, not a proof (see "outside" in checks/C11.json).
+func VerifC11PriceToTickSamples() {
+	_, err0 := PriceToTick(0)
+	vs.Assert("zero-price-refused", err0 != nil)
+	for _, t := range c11BoundaryTicks {
+		p, err := TickToPrice(t)
+		vs.Assert("boundary-tick-has-a-price", err == nil)
+		for d := uint64(0); d < 3; d++ {
+			price := p + d - 1
+			if price == 0 || (d == 2 && p == ^uint64(0)) {
+				continue
+			}
+			got, err := PriceToTick(price)
+			vs.Assert("sample-has-a-tick", err == nil)
+			vs.Assert("sample-tick-is-largest-not-exceeding-price", err != nil || VerifC11TickIsExact(price, got))
+		}
+	}
+	vs.Reach("samples-checked", true)
 }
